@@ -108,7 +108,7 @@ PALETTE = [0.1, 1.0 / 3, 0.7, 0.5, 0.25, 1.0, 0.0, 0.9, 2.0 / 3, 0.2]
 def gen_matrix(rng, maxn):
     r = rng.randint(1, maxn)
     c = r if rng.random() < 0.5 else rng.randint(1, maxn)
-    kind = rng.choice(['tie', 'small', 'int', 'big', 'grade', 'grade', 'ufloat', 'dyadic'])
+    kind = rng.choice(['tie', 'small', 'int', 'big', 'grade', 'grade', 'ufloat', 'dyadic', 'huge'])
     if kind == 'tie':
         f = lambda: rng.randint(0, 2)
     elif kind == 'small':
@@ -117,6 +117,14 @@ def gen_matrix(rng, maxn):
         f = lambda: rng.randint(0, 100)
     elif kind == 'big':
         f = lambda: rng.randint(0, 10**12)
+    elif kind == 'huge':
+        # costs far beyond sys.maxsize (finite, non-negative): integers up to 10^40 or floats up to 1e300
+        if rng.random() < 0.5:
+            e = rng.randint(19, 40)
+            f = lambda: rng.randint(0, 9) * 10 ** e + rng.randint(0, 5)
+        else:
+            e = rng.choice([19, 22, 30, 100, 300])
+            f = lambda: float(rng.randint(0, 9)) * 10.0 ** e
     elif kind == 'grade':
         f = lambda: 1 - rng.choice(PALETTE)
     elif kind == 'ufloat':
@@ -184,7 +192,8 @@ def run(ctx):
     n_exh = len(mats)
     corpus = [[[4, 1, 3], [2, 0, 5], [3, 2, 2]], [[0.9, 0.30000000000000004, 0.7], [0.5, 0.9, 1.0]],
               [[1, 1], [1, 1], [0, 1]], [[5]], [[0.0, 1 - 1.0 / 3], [1 - 0.7, 0.0], [0.5, 0.5]],
-              [[10**15, 1], [1, 10**15]], [[0.1 + 0.2, 0.3], [0.3, 0.1 + 0.2]]]
+              [[10**15, 1], [1, 10**15]], [[0.1 + 0.2, 0.3], [0.3, 0.1 + 0.2]],
+              [[10**30, 2 * 10**30], [3 * 10**30, 5 * 10**30]], [[1e30, 2e30], [3e30, 5e30]], [[1e300, 0.0], [5e299, 1e300]]]
     mats += [('corpus', M) for M in corpus]
     for _ in range(n_random):
         mats.append(gen_matrix(rng, maxn))
